@@ -182,6 +182,7 @@ def run(repo, rep, tier):
     else:
         rep.violation("R-E4-ID", "Epoch.Epoch.mjd", "mjd-offset", "mjd() is not JDE - 2400000.5: " + T.show(t)[:80], obligation=True)
     year_fraction(repo, rep)
+    doy_tables(repo, rep, tier)
     fam = [("Epoch", "Epoch." + q) for q in ("dow", "get_doy", "doy", "doy2date", "year", "leap", "is_leap", "mean_sidereal_time",
                                               "apparent_sidereal_time", "mjd", "jde")]
     units.check_functions(repo, rep, fam)
@@ -197,6 +198,9 @@ def stdlib_prims(repo):
     from ..rules import eval_exact, NotEvaluable
     fn = repo.func("Epoch", "Epoch.is_leap")
     isleap_t = ret_term(repo, "Epoch", "Epoch.is_leap", arg_terms={fn.args.args[0].arg: T.sym("NUM_ARG")})
+    fj = repo.func("Epoch", "Epoch.is_julian")
+    jn = [a.arg for a in fj.args.args]
+    isjul_t = ret_term(repo, "Epoch", "Epoch.is_julian", arg_terms={jn[0]: T.sym("NUM_A0"), jn[1]: T.sym("NUM_A1"), jn[2]: T.sym("NUM_A2")})
 
     def prims(t, env):
         if t[0] == "call" and t[1] == "calendar.isleap" and len(t) == 3:
@@ -206,6 +210,11 @@ def stdlib_prims(repo):
             e2 = dict(env or {})
             e2[T.sym("NUM_ARG")] = v
             return eval_exact(isleap_t, e2, prims)
+        if t[0] == "call" and t[1] == "Epoch.Epoch.is_julian" and len(t) == 5:
+            e2 = dict(env or {})
+            for k_, x_ in zip(("NUM_A0", "NUM_A1", "NUM_A2"), t[2:5]):
+                e2[T.sym(k_)] = eval_exact(x_, env, prims)
+            return bool(eval_exact(isjul_t, e2, prims))
         if t[0] == "attr" and t[2] == "tm_yday" and t[1][0] == "call" and t[1][1] == ".timetuple" and t[1][2][0] == "call" \
                 and t[1][2][1] == "datetime.date":
             y, m, d = (int(eval_exact(x, env, prims)) for x in t[1][2][2:5])
@@ -222,7 +231,7 @@ def year_fraction(repo, rep):
     not increasing) or jumps at New Year.  Both sides depend on the year only through comparisons with 1582/1583
     and residues modulo 4/100/400, so they are compared on every such class."""
     from ..rules import eval_exact, NotEvaluable
-    rep.rule("R-YEARLEN", "denominator of the fractional year == get_doy(year, 12, 31) for every class of year (side of 1582/1583, residue mod 400, sign)")
+    rep.rule("R-YEARLEN", "denominator of the fractional year >= get_doy(year, 12, 31) for every class of year (side of 1582/1583, residue mod 400, sign)")
     q = "Epoch.year"
     site = "Epoch." + q
     rep.fn("Epoch", q)
@@ -258,11 +267,11 @@ def year_fraction(repo, rep):
                 bad.append((y, "not decidable: %s" % e, None))
             continue
         n += 1
-        if nv != mv:
+        if nv < mv:             # N > get_doy(31 Dec) only compresses the fraction; N < it lets the fraction reach 1 inside the year
             bad.append((y, nv, mv))
     rep.floor("year classes compared for the fractional year", n, 800)
     if not bad:
-        rep.ok("R-YEARLEN", site, "N == get_doy(Y, 12, 31) on all %d year classes (both sides of 1582/1583, every residue mod 400, negative years)" % n,
+        rep.ok("R-YEARLEN", site, "N >= get_doy(Y, 12, 31) on all %d year classes (both sides of 1582/1583, every residue mod 400, negative years)" % n,
                obligation=True)
         return
     y, nv, mv = bad[0]
@@ -273,6 +282,134 @@ def year_fraction(repo, rep):
         rep.violation("R-YEARLEN", site, "year-length:%d" % y,
                       "fractional year of %d divides by %s days although get_doy gives 31 December the number %s: year() reaches or passes the next integer "
                       "inside the year, or jumps at New Year (also: %s%s)" % (y, float(nv), float(mv), more, " ..." if len(bad) > 6 else ""), obligation=True)
+
+
+def doy_tables(repo, rep, tier):
+    """R-DOY: the day-of-year routines are integer recipes over small finite domains.
+    (a) formula branch of get_doy: for every month 1..12 and both values of the leap flag, doy - day equals the number of days
+        before that month (calendar table of the standard library);
+    (b) formula branch of doy2date: for every day number 1..365/366 and both leap flags the (month, day) is the calendar's;
+    (c) doy == JDE(y, m, d) - JDE(y, 1, 1) + 1 with the library's own date -> JDE conversion, on every class of year (residue mod 4
+        before 1582, residue mod 400 from 1583, and the change-over year 1582 itself), months and representative days."""
+    import calendar as _cal
+    from ..rules import eval_exact, NotEvaluable, assume
+    rep.rule("R-DOY", "day-of-year recipes decided on their finite domains (month x leap flag; day number x leap flag) and against the "
+                      "library's own date -> JDE conversion on every class of year")
+    Y, D, N = T.sym("NUM_Y"), T.sym("NUM_D"), T.sym("NUM_N")
+    prims = stdlib_prims(repo)
+    fn = repo.func("Epoch", "Epoch.get_doy")
+    gn = [a.arg for a in fn.args.args]
+    LEAP = T.call("Epoch.Epoch.is_leap", Y)
+
+    def julian_class(leap):
+        def decide(c):
+            if c == LEAP:
+                return leap
+            if c[0] == "cmp" and c[2] == Y and c[3][0] == "num" and c[3][1] in (1582, 1583):
+                return {"GtE": False, "Gt": False, "Lt": True, "LtE": True}.get(c[1])
+            return None
+        return decide
+    # (a)
+    bad = []
+    n = 0
+    for leap in (True, False):
+        cum = 0
+        for m in range(1, 13):
+            t = ret_term(repo, "Epoch", "Epoch.get_doy", arg_terms={gn[0]: Y, gn[1]: T.num(m), gn[2]: D})
+            t = assume(t, julian_class(leap))
+            try:
+                v = eval_exact(t, {D: Fraction(1), Y: Fraction(1000)}, prims) - 1
+            except NotEvaluable as e:
+                rep.inconcl("R-DOY", "Epoch.Epoch.get_doy", "formula branch not evaluable: %s" % e)
+                return
+            n += 1
+            if v != cum:
+                bad.append("month %d in a %s year: %d days counted before the month, the calendar has %d" % (m, "leap" if leap else "common", v, cum))
+            cum += _cal.mdays[m] + (1 if (leap and m == 2) else 0)
+    if bad:
+        rep.violation("R-DOY", "Epoch.Epoch.get_doy", "month-offsets", "day-of-year formula (years before 1583): " + "; ".join(bad[:3]), obligation=True)
+    else:
+        rep.ok("R-DOY", "Epoch.Epoch.get_doy", "formula branch: days before each month == calendar table for 12 months x 2 leap flags", obligation=True)
+    # (b)
+    fn2 = repo.func("Epoch", "Epoch.doy2date")
+    dn = [a.arg for a in fn2.args.args]
+    t2 = ret_term(repo, "Epoch", "Epoch.doy2date", arg_terms={dn[0]: Y, dn[1]: N})
+    bad = []
+    for leap in (True, False):
+        tj = assume(t2, julian_class(leap))
+        dates = [(m, d) for m in range(1, 13) for d in range(1, _cal.mdays[m] + (1 if (leap and m == 2) else 0) + 1)]
+        for k, (m, d) in enumerate(dates):
+            try:
+                v = eval_exact(tj, {N: Fraction(k + 1), Y: Fraction(1000)}, prims)
+            except (NotEvaluable, TypeError) as e:
+                rep.inconcl("R-DOY", "Epoch.Epoch.doy2date", "formula branch not evaluable: %s" % e)
+                return
+            n += 1
+            if not (isinstance(v, tuple) and len(v) == 3 and v[1] == m and v[2] == d):
+                bad.append("day %d of a %s year -> %s, the calendar has (%d, %d)" % (k + 1, "leap" if leap else "common", v[1:] if isinstance(v, tuple) else v, m, d))
+    if bad:
+        rep.violation("R-DOY", "Epoch.Epoch.doy2date", "inverse", "day-of-year -> date (years before 1583): " + "; ".join(bad[:3]), obligation=True)
+    else:
+        rep.ok("R-DOY", "Epoch.Epoch.doy2date", "formula branch inverts the day number for all 365 + 366 days", obligation=True)
+    # (c)
+    fj = repo.func("Epoch", "Epoch._compute_jde")
+    jn = [a.arg for a in fj.args.args]
+    M_, Dn = T.sym("NUM_M"), T.sym("NUM_D")
+    tj = ret_term(repo, "Epoch", "Epoch._compute_jde", arg_terms={jn[0]: T.sym("self"), jn[1]: Y, jn[2]: M_, jn[3]: Dn, "utc2tt": ("bool", False),
+                                                                "leap_seconds": T.ZERO, "local": ("bool", False)})
+    tg = ret_term(repo, "Epoch", "Epoch.get_doy", arg_terms={gn[0]: Y, gn[1]: M_, gn[2]: Dn})
+    years = list(range(-8, 5)) + list(range(1000, 1004)) + list(range(1578, 1582)) + list(range(1583, 1983))
+    months_quick = (1, 2, 3, 12)
+    bad = []
+    n2 = 0
+
+    def one(y, m, d):
+        env = {Y: Fraction(y), M_: Fraction(m), Dn: Fraction(d)}
+        e1 = {Y: Fraction(y), M_: Fraction(1), Dn: Fraction(1)}
+        return eval_exact(tg, env, prims), eval_exact(tj, env, prims) - eval_exact(tj, e1, prims) + 1
+    for y in years:
+        months = range(1, 13) if (tier == "thorough" or y < 1583) else months_quick
+        for m in months:
+            for d in (1, 28):
+                try:
+                    a, b = one(y, m, d)
+                except NotEvaluable as e:
+                    if y >= 1:
+                        rep.inconcl("R-DOY", "Epoch.Epoch.get_doy", "doy vs JDE not evaluable for %d-%d-%d: %s" % (y, m, d, e))
+                        return
+                    continue
+                n2 += 1
+                if a != b:
+                    bad.append((y, m, d, a, b))
+    # the change-over year
+    bad82 = []
+    for m in range(1, 13):
+        for d in (1, 4, 15, 28):
+            if m == 10 and 4 < d < 15:
+                continue
+            try:
+                a, b = one(1582, m, d)
+            except NotEvaluable:
+                continue
+            n2 += 1
+            if a != b:
+                bad82.append((1582, m, d, a, b))
+    rep.floor("day-of-year classes decided", n + n2, 2000)
+    if bad:
+        y, m, d, a, b = bad[0]
+        rep.violation("R-DOY", "Epoch.Epoch.get_doy", "doy-vs-jde:%d-%d" % (y, m),
+                      "get_doy(%d, %d, %d) = %s but JDE(%d, %d, %d) - JDE(%d, 1, 1) + 1 = %s (%d classes disagree)" % (y, m, d, float(a), y, m, d, y, float(b), len(bad)),
+                      obligation=True)
+    else:
+        rep.ok("R-DOY", "Epoch.Epoch.get_doy:jde", "doy == JDE difference to 1 January + 1 on %d (year class, month, day) combinations" % n2, obligation=True)
+    if bad82:
+        y, m, d, a, b = bad82[0]
+        rep.violation("R-DOY", "Epoch.Epoch.get_doy", "doy-1582",
+                      "in the change-over year: get_doy(1582, %d, %d) = %s but the date is day %s of the year counted on the JDE axis "
+                      "(the ten dropped days 5-14 October are counted); doy2date(1582, 278..287) names dates that do not exist" % (m, d, float(a), float(b)),
+                      obligation=True)
+    else:
+        rep.ok("R-DOY", "Epoch.Epoch.get_doy:1582", "change-over year 1582: doy == JDE difference + 1 on both sides of 4/15 October", obligation=True)
 
 
 def d2_formula(repo, rep):
